@@ -2,6 +2,6 @@ export GOFLAGS=-mod=mod GOPROXY=off GOSUMDB=off GOTOOLCHAIN=local
 sed -i "s|=> /repo|=> $VP_RUN_REPO|" harness/go.mod
 export VERIF_REPO=$VP_RUN_REPO
 ./setup.sh > setup.log 2>&1 || { echo SETUP FAILED; tail -20 setup.log; }
-for s in 19 20 21 22; do for p in 01 02 03 04 05 06 07 08 09 10 11 12 13 14 15 16 17 18; do VERIF_SEED=$s ./check C$p 2>&1 | grep -E "^(OK|VIOLATION|  )" | cut -c1-250; done; done
-for s in 10; do for p in 01 02 03 04 05 06 07 08 09 10 11 12 13 14 15 16 17 18; do VERIF_SEED=$s ./check C$p --tier thorough 2>&1 | grep -E "^(OK|VIOLATION|  )" | cut -c1-250; done; done
+for s in 23 24 25 26; do for p in 01 02 03 04 05 06 07 08 09 10 11 12 13 14 15 16 17 18; do VERIF_SEED=$s ./check C$p 2>&1 | grep -E "^(OK|VIOLATION|  )" | cut -c1-250; done; done
+for s in 11; do for p in 01 02 03 04 05 06 07 08 09 10 11 12 13 14 15 16 17 18; do VERIF_SEED=$s ./check C$p --tier thorough 2>&1 | grep -E "^(OK|VIOLATION|  )" | cut -c1-250; done; done
 echo SOAK DONE
